@@ -30,7 +30,7 @@ IMPORTS = "From XV Require Import Base.Str Base.Eqb Spec.WsdlSpec Model.Wsdl Mod
 CLASSES = {1: "header-after-body-order", 2: "rpc-response-wrapper-name", 3: "empty-soapaction-dropped",
            5: "document-type-part-accessor", 6: "rpc-element-part-no-accessor",
            7: "rpc-body-parts-ignored", 8: "duplicate-service-name-last-wins",
-           9: "output-header-required", 10: "rpc-message-shadows-schema-element"}
+           10: "rpc-message-shadows-schema-element"}
 DIRECTED = [
     {"layout": "one", "n_ops": 1, "binding_style": "document", "op_style": None, "header": 1, "header_after_body": 1},
     {"layout": "one", "n_ops": 1, "binding_style": "rpc", "op_style": None, "rpc_bad_response_name": 1},
